@@ -22,6 +22,13 @@ Theorem C05_vchain_multi_target : forall j nt, (1 <= nt)%nat -> forall psi b,
 Proof. exact vchain_multi_exact. Qed.
 Print Assumptions C05_vchain_multi_target.
 
+(* ... for every control pattern (the gate list vchain of the model, as compared with McxVchainDirty on every run) *)
+Theorem C05_vchain_multi_pattern : forall j nt pat psi b, (1 <= nt)%nat -> (1 <= j \/ 2 <= nt)%nat ->
+  srun (vchain (j + 3) nt pat false false) psi b
+  = psi (if pmatch pat (j + 3) b then Cvoqram.flips (targets j nt) b else b).
+Proof. intros j nt pat psi b H1 H2. now apply vchain_multi_pattern. Qed.
+Print Assumptions C05_vchain_multi_pattern.
+
 (* relative-phase mode: the same permutation times a diagonal with entries +1/-1 *)
 Theorem C05_vchain_relphase : forall j psi b,
   exists s : C, (s = RtoC 1 \/ s = RtoC (-1)) /\
